@@ -35,6 +35,10 @@ func register(c *Check) {
 		c.Explanation += " " + reentryExplanation
 		c.Technique += "; must-lockset with helper entry locksets against a may-acquire-first summary (no re-entrant mutex acquisition, also through String/Error methods handed to fmt or a logger)"
 	}
+	if len(blockingSources[c.ID]) > 0 {
+		c.Explanation += " " + blockingExplanation
+		c.Technique += "; may-lockset per mutex field with a least fixed point of the locks a function may be entered with (no blocking operation while the mutex may be held)"
+	}
 	if from := depSources[c.ID]; len(from) > 0 {
 		c.Pkgs = withDepsV(c.ID, c.Pkgs)
 		c.Explanation += " " + depExplanationV(c.ID)
@@ -104,6 +108,9 @@ func RunCheck(chk *Check, p *ir.Prog, cfg string) (res *report.Result) {
 	}
 	for _, rel := range reentrySources[chk.ID] {
 		ctx.noReentrantLock(chk.ID+".K1", p.FuncsOf(rel))
+	}
+	for _, rel := range blockingSources[chk.ID] {
+		ctx.noBlockingUnderLock(chk.ID+".K2", p.FuncsOf(rel))
 	}
 	fs := map[string]bool{}
 	for _, f := range res.Functions {
